@@ -9,6 +9,7 @@ orientation; and for graphs produced by compression: the node builders' terminal
 path k-mer / node, complemented when traversed flipped) and the complete step tables of both routes (a node that absorbs a
 palindrome or a branch has an edge with no way back)."""
 from .. import dt_graph, dt_compress, dt_tables, dt_filter
+from . import common
 
 ASSUMPTIONS = ["that the set of resolvable edges equals the input's (K+1)-mers is a data-dependent fact not decided here"]
 
@@ -31,3 +32,6 @@ def run(F, rep):
     rep.run(dt_tables.graph_step_table, F, rep, "C03.6")
     # the edge set equals the observed (K+1)-mers only if every observation's flanking bases reach the table: both summarizers
     rep.run(dt_filter.summarizer_tables, F, rep, "C03.9")
+    # the sharded pruning variant binary-searches the list of all observed k-mers that filter_kmers returns; that list is the concatenation
+    # of the per-bucket sorted lists in bucket order, which is sorted only because bucket() is monotone in the k-mer order (first 4 bases)
+    rep.run(common.run_kmer_lemmas, F, rep, {"bucket"})
